@@ -398,12 +398,15 @@ inline void simFillArgv(Tuple &vals, void **argv, std::index_sequence<I...>)
     ((argv[I] = static_cast<void *>(&std::get<I>(vals))), ...);
 }
 
+// Like a direct connection in Qt, emission hands the slots POINTERS to the emitter's own argument objects (no copy):
+// a slot declared with a by-value parameter copies at the call, one declared "const T &" aliases what the emitter
+// passed - typically its stored member, which a nested emission may overwrite.
 template<class C, class... A, class... B>
 inline void simEmit(C *sender, void (C::*sig)(A...), B &&...args)
 {
-    std::tuple<typename std::decay<A>::type...> vals(std::forward<B>(args)...);
-    void *argv[sizeof...(A) + 1];
-    simFillArgv(vals, argv, std::make_index_sequence<sizeof...(A)>{});
+    static_assert((std::is_same<typename std::decay<A>::type, typename std::decay<B>::type>::value && ...),
+                  "simEmit: arguments must have exactly the signal's parameter types");
+    void *argv[sizeof...(A) + 1] = {const_cast<void *>(static_cast<const void *>(&args))...};
     sender->simDeliver(simSigKey(sig), argv);
 }
 
